@@ -6,4 +6,4 @@ Extraction "extracted/c01_model.ml"
   alookup bo_score bo_length spec matched usable
   score_except_backoff full_score full_score_forgot get_state extend_left un_rest null_state
   load_probing load_trie eval_tree yield reveal_before reveal_after subsume tinv_check flat_hyp_check ext_ctx_check st_eq st_compare st_lt left_eq left_compare left_lt
-  trie_image trie_walk_check probing_image trie_file probing_file.
+  trie_image trie_walk_check probing_image trie_file probing_file rest_file.
